@@ -148,6 +148,17 @@ def run(ctx):
                 for t in ri.replace(" | ", " ").split(" "):
                     if t and t != ".":
                         toks[t[0]] = toks.get(t[0], 0) + 1
+                # the EPOLLOUT bit of the last registration, per operation (E...): a '0' where the model (theorem
+                # tcp_epollout_armed_iff_queued) has '1' means bytes are queued on an open session that never asks
+                # for writability again
+                ei, em = ri.rsplit(" E", 1)[-1] if " E" in ri else "", rm.rsplit(" E", 1)[-1] if " E" in rm else ""
+                lost = [i for i, (a, b) in enumerate(zip(ei, em)) if a == "0" and b == "1"]
+                if lost and ri.rsplit(" E", 1)[0] == rm.rsplit(" E", 1)[0]:
+                    v.property_failure("epollout-not-armed-with-queued-data", "after operation %d bytes are queued on the open session but its "
+                                       "last epoll registration does not ask for EPOLLOUT: they are never written (lost re-arm)" % lost[0],
+                                       line, "impl:  %s\nmodel: %s" % (ri[:1500], rm[:1500]))
+                    disagree += 1
+                    continue
                 if ri != rm:
                     disagree += 1
                     cbp = line.split(" ")[1].split(",")[1] == "1"
